@@ -23,27 +23,33 @@ Record Mid (s0 X : st) (tn : list tok) (en : list err_info) (rr : list char) : P
   md_lines : lines_pos X
 }.
 
-Lemma Mid_adv s0 X tn en x r : Mid s0 X tn en (x :: r) -> Mid s0 (st_adv X x r) tn en r.
+Lemma Mid_adv s0 X tn en x r : (x =? NL) = false -> Mid s0 X tn en (x :: r) -> Mid s0 (st_adv X x r) tn en r.
 Proof.
-  intros [C T E R M L]. constructor; try assumption; try reflexivity.
-  change (c_rem (s_cur X) - utf8_len x = blen r). rewrite M. cbn [blen]. lia.
+  intros Hx [C T E R M L]. constructor; try assumption; try reflexivity.
+  - change (c_rem (s_cur X) - utf8_len x = blen r). rewrite M. cbn [blen]. lia.
+  - apply lines_pos_adv; assumption.
 Qed.
 
-Lemma Mid_add_line s0 X tn en rr : Mid s0 X tn en rr -> Mid s0 (st_add_line X) tn en rr.
-Proof. intros [C T E R M L]. constructor; try assumption. apply lines_pos_add_line. exact L. Qed.
+(** a line feed and its [add_line] *)
+Lemma Mid_nl s0 X tn en x r : (x =? NL) = true -> Mid s0 X tn en (x :: r) -> Mid s0 (st_add_line (st_adv X x r)) tn en r.
+Proof.
+  intros Hx [C T E R M L]. constructor; try assumption; try reflexivity.
+  - change (c_rem (s_cur X) - utf8_len x = blen r). rewrite M. cbn [blen]. lia.
+  - apply lines_pos_nl; assumption.
+Qed.
 
 Lemma Mid_ws1 s0 X tn en x r : Mid s0 X tn en (x :: r) -> Mid s0 (ws1 X x r) tn en r.
-Proof. intros H. unfold ws1. destruct (x =? NL); [apply Mid_add_line|]; apply Mid_adv; exact H. Qed.
+Proof. intros H. unfold ws1. destruct (x =? NL) eqn:Ex; [apply Mid_nl|apply Mid_adv]; assumption. Qed.
 
 Lemma Mid_emit s0 X tn en rr ch ty pl : Mid s0 X tn en rr ->
   Mid s0 (st_emit X ch ty pl) (mkTok ch ty (s_ct_byte X) (s_ct_start X) (s_ct_line X) pl :: tn) en rr.
 Proof. intros [C T E R M L]. constructor; try assumption. cbn [st_emit s_buf w_toks set]. rewrite T. reflexivity. Qed.
 
 Lemma Mid_start s0 X tn en rr : Mid s0 X tn en rr -> Mid s0 (st_start X) tn en rr.
-Proof. intros [C T E R M L]. constructor; [exact C|exact T|exact E|exact R|exact M|exact L]. Qed.
+Proof. intros [C T E R M L]. constructor; [exact C|exact T|exact E|exact R|exact M|apply lines_pos_start; exact L]. Qed.
 
 Lemma Mid_error s0 X tn en rr k : Mid s0 X tn en rr -> Mid s0 (Core.emit_error X k) tn (prep_error X k :: en) rr.
-Proof. intros [C T E R M L]. constructor; try assumption. cbn. rewrite E. reflexivity. Qed.
+Proof. intros [C T E R M L]. constructor; try assumption; [cbn; rewrite E; reflexivity|apply lines_pos_error; exact L]. Qed.
 
 Lemma Mid_cur_byte s0 X tn en rr : Mid s0 X tn en rr -> cur_byte X = s_srclen s0 - blen rr.
 Proof.
@@ -154,7 +160,7 @@ Proof.
     assert (Hnl : (x =? NL) = true -> (x =? c_semi) = false) by (intros E; apply N.eqb_eq in E; subst x; reflexivity).
     destruct (x =? NL) eqn:En.
     + rewrite (Hnl eq_refl). rewrite datalines_data_acc.
-      specialize (IH (st_add_line (st_adv X x r)) tn en (Mid_add_line _ _ _ _ _ (Mid_adv _ _ _ _ _ _ HM))).
+      specialize (IH (st_add_line (st_adv X x r)) tn en (Mid_nl _ _ _ _ _ _ En HM)).
       destruct (datalines_data r 0 (N.to_nat el)) as [dn found]. cbn [fst snd].
       replace (N.to_nat (0 + 1 + dn)) with (S (N.to_nat dn)) by lia. cbn [skipn_N]. exact IH.
     + destruct (x =? c_semi).
@@ -165,11 +171,11 @@ Proof.
            destruct (starts_semis (N.to_nat el) (x :: r)).
            ++ cbn [N.to_nat skipn_N]. exists en. split; [exact HM|reflexivity].
            ++ rewrite datalines_data_acc.
-              specialize (IH (st_adv X x r) tn en (Mid_adv _ _ _ _ _ _ HM)).
+              specialize (IH (st_adv X x r) tn en (Mid_adv _ _ _ _ _ _ En HM)).
               destruct (datalines_data r 0 (N.to_nat el)) as [dn found]. cbn [fst snd].
               replace (N.to_nat (0 + 1 + dn)) with (S (N.to_nat dn)) by lia. cbn [skipn_N]. exact IH.
       * rewrite datalines_data_acc.
-        specialize (IH (st_adv X x r) tn en (Mid_adv _ _ _ _ _ _ HM)).
+        specialize (IH (st_adv X x r) tn en (Mid_adv _ _ _ _ _ _ En HM)).
         destruct (datalines_data r 0 (N.to_nat el)) as [dn found]. cbn [fst snd].
         replace (N.to_nat (0 + 1 + dn)) with (S (N.to_nat dn)) by lia. cbn [skipn_N]. exact IH.
 Qed.
@@ -193,9 +199,9 @@ Lemma semis_mid s0 : forall k l X tn en, Mid s0 X tn en l ->
 Proof.
   induction k as [|k IH]; intros l X tn en HM; [destruct l; exact HM|].
   destruct l as [|x r]; [exact HM|]. cbn [st_semis count_semis_upto].
-  destruct (x =? c_semi); [|exact HM].
+  destruct (x =? c_semi) eqn:Ex; [|exact HM].
   replace (N.to_nat (1 + count_semis_upto k r)) with (S (N.to_nat (count_semis_upto k r))) by lia. cbn [skipn_N].
-  apply IH. apply Mid_adv. exact HM.
+  apply IH. apply Mid_adv; [exact (eq_not_nl x c_semi Ex eq_refl)|exact HM].
 Qed.
 
 (** the token-start fields are set by [start_token] only *)
@@ -215,10 +221,11 @@ Proof. induction k as [|k IH]; intros l X; [destruct l; reflexivity|]. destruct 
 Lemma ctb_eat p : forall l X, s_ct_byte (st_eat p X l) = s_ct_byte X.
 Proof. induction l as [|x r IH]; intros X; [reflexivity|]. cbn [st_eat]. destruct (p x); [rewrite IH|]; reflexivity. Qed.
 
-Lemma Mid_eat s0 p : forall l X tn en, Mid s0 X tn en l -> Mid s0 (st_eat p X l) tn en (drop_while p l).
+Lemma Mid_eat s0 p : (forall x, p x = true -> (x =? NL) = false) ->
+  forall l X tn en, Mid s0 X tn en l -> Mid s0 (st_eat p X l) tn en (drop_while p l).
 Proof.
-  induction l as [|x r IH]; intros X tn en HM; [exact HM|]. cbn [st_eat drop_while].
-  destruct (p x); [|exact HM]. apply IH. apply Mid_adv. exact HM.
+  intros Hp. induction l as [|x r IH]; intros X tn en HM; [exact HM|]. cbn [st_eat drop_while].
+  destruct (p x) eqn:Epx; [|exact HM]. apply IH. apply Mid_adv; [exact (Hp x Epx)|exact HM].
 Qed.
 
 Lemma skipn_N_add {A} a : forall b (l : list A), skipn_N a (skipn_N b l) = skipn_N (b + a) l.
@@ -228,7 +235,7 @@ Lemma Mid_init text s rs : OC text s rs -> Mid (st_start s) (st_start s) [] [] (
 Proof.
   intros HOC. constructor; try reflexivity.
   - destruct (ip_cur _ _ (oc_inv _ _ _ HOC)) as (pre & _ & _ & R). exact R.
-  - exact (oc_lines _ _ _ HOC).
+  - apply lines_pos_start. exact (oc_lines _ _ _ HOC).
 Qed.
 
 Lemma datalines_data_found tlen : forall l dn, datalines_data l 0 tlen = (dn, true) ->
@@ -332,7 +339,7 @@ Section Block.
     rewrite Hl1 in Hws.
     set (X0 := st_start s). set (X1 := st_eat ident_char X0 l).
     pose proof (Mid_init text s rs HOC) as M0. rewrite Hr in M0. fold X0 l in M0.
-    pose proof (Mid_eat X0 ident_char l X0 [] [] M0) as M1. fold X1 l1 in M1.
+    pose proof (Mid_eat X0 ident_char (ident_char_not_nl) l X0 [] [] M0) as M1. fold X1 l1 in M1.
     destruct (head_loop_mid X0 l1 X1 [] [] k Hws M1) as [M2 Hk1].
     set (X2 := st_head X1 l1) in *. set (l2 := skipn_N (N.to_nat k) l1) in *.
     pose proof (Mid_emit X0 X2 [] [] l2 CH_DEFAULT T_DatalinesStart PNone M2) as M3.
